@@ -21,7 +21,7 @@ rundemo() {
     pkg=$(grep -o 'lib/[a-z]*' $SRC/notes.md | head -1); pkgname=$(grep -m1 '^package' $SRC/demo_test.go | awk '{print $2}')
     [ -d "lib/$pkgname" ] && pkg=lib/$pkgname
     cp $SRC/demo_test.go $pkg/zz_demo_test.go
-    timeout 900 go test $RACEFLAG -vet=off -count=1 -run 'Demo|Seed' ./$pkg/ > $TMPDIR/demo.log 2>&1; rc=$?
+    timeout 900 go test $RACEFLAG -vet=off -count=1 -run 'Demo|Seed|TestC[0-9]' ./$pkg/ > $TMPDIR/demo.log 2>&1; rc=$?
     rm -f $pkg/zz_demo_test.go; return $rc
   fi
   echo "no demo" > $TMPDIR/demo.log; return 99
